@@ -527,3 +527,47 @@ M('C10', 'conflict-tagged-with-strategy', MG, '                decisions.local_t
 M('C20', 'stream-not-rewound', SRV, "                # Assume arg is file-like\n                arg.seek(0)\n", "                # Assume arg is file-like\n", 'R20.8')
 M('C11', 'patch-keyed-by-target-index', GEN, '                    di.patch(i + k, cd)  # FIXME', '                    di.patch(j + k, cd)  # FIXME', 'R11.5')
 M('C11', 'mime-entry-keyed-by-lowercase', NBD, '        if dd:\n            diffbuilder.patch(key, dd)', '        if dd:\n            diffbuilder.patch(mimetype, dd)', 'R11.6')
+
+# ------------------------------------------------------------------------------------------ rules added in session 3
+TSDEC = 'packages/nbdime/src/merge/decisions.ts'
+M('C03', 'render-lines-loop-without-emptiness-guard', PP,
+  "    if local and local[-1].endswith('\\n'):\n        local[-1] = local[-1] + '\\n'\n    if remote and remote[-1].endswith('\\n'):\n        remote[-1] = remote[-1] + '\\n'\n",
+  "    for side in (local, remote):\n        if side[-1].endswith('\\n'):\n            side[-1] = side[-1] + '\\n'\n", 'R03.8')
+T('C03', 'twin-render-lines-loop-with-guard', PP,
+  "    if local and local[-1].endswith('\\n'):\n        local[-1] = local[-1] + '\\n'\n    if remote and remote[-1].endswith('\\n'):\n        remote[-1] = remote[-1] + '\\n'\n",
+  "    for side in (local, remote):\n        if side and side[-1].endswith('\\n'):\n            side[-1] = side[-1] + '\\n'\n")
+M('C10', 'use-strategy-before-transient-arms', MG,
+  "                if p0[0].op == DiffOp.REMOVERANGE and is_transient:\n                    # Patch contains only transient changes, pick deletion\n                    decisions.local(path, p0, p1)\n                elif p1[0].op == DiffOp.REMOVERANGE and is_transient:\n                    # Patch contains only transient changes, pick deletion\n                    decisions.remote(path, p0, p1)\n                elif list_strategy == \"use-base\":\n                    # Not sure if this will be used, it just makes sense here\n                    decisions.base(path, p0, p1)\n",
+  "                if list_strategy == \"use-base\":\n                    # Not sure if this will be used, it just makes sense here\n                    decisions.base(path, p0, p1)\n                elif p0[0].op == DiffOp.REMOVERANGE and is_transient:\n                    # Patch contains only transient changes, pick deletion\n                    decisions.local(path, p0, p1)\n                elif p1[0].op == DiffOp.REMOVERANGE and is_transient:\n                    # Patch contains only transient changes, pick deletion\n                    decisions.remote(path, p0, p1)\n", 'R10.5')
+T('C10', 'twin-reorder-use-arms-among-themselves', MG,
+  "                elif list_strategy == \"use-base\":\n                    # Not sure if this will be used, it just makes sense here\n                    decisions.base(path, p0, p1)\n                elif list_strategy == \"use-local\":\n                    # Not sure if this will be used, it just makes sense here\n                    decisions.local(path, p0, p1)\n",
+  "                elif list_strategy == \"use-local\":\n                    # Not sure if this will be used, it just makes sense here\n                    decisions.local(path, p0, p1)\n                elif list_strategy == \"use-base\":\n                    # Not sure if this will be used, it just makes sense here\n                    decisions.base(path, p0, p1)\n")
+M('C05', 'take-max-reads-remote-twice', DEC, 'lval = decision.local_diff[0].value if decision.local_diff else bval',
+  'lval = decision.remote_diff[0].value if decision.local_diff else bval', 'R05.4')
+M('C05', 'inline-source-patches-local-twice', STR, '        local = patch(base, local_diff)\n        remote = patch(base, remote_diff)\n', '        local = patch(base, local_diff)\n        remote = patch(base, local_diff)\n', 'R05.4')
+M('C05', 'recurse-rcell-from-local', STR, 'rcell = d.remote_diff[0].valuelist[0]', 'rcell = d.local_diff[0].valuelist[0]', 'R05.4')
+M('C05', 'cell-conflict-rkeep-not-mirrored', STR, 'rkeep = max(0, rremove - lremove)', 'rkeep = max(0, lremove - rremove)', 'R05.4')
+T('C05', 'twin-mirror-pair-renamed-cursor', PP, '    local = local[:i+1]\n    remote = remote[:j+1]', '    end_local, end_remote = i + 1, j + 1\n    local = local[:end_local]\n    remote = remote[:end_remote]')
+T('C05', 'twin-mirror-pair-with-comment-between', DEC, '        lval = decision.local_diff[0].value if decision.local_diff else bval\n',
+  '        lval = decision.local_diff[0].value if decision.local_diff else bval\n        # and the same for the other side\n')
+M('C04', 'take-max-ignores-local-value', DEC, 'lval = decision.local_diff[0].value if decision.local_diff else bval',
+  'lval = decision.remote_diff[0].value if decision.local_diff else bval', 'R04.4')
+M('C04', 'take-max-drops-base', DEC, 'mval = max(bval, lval, rval)', 'mval = max(lval, rval)', 'R04.4')
+T('C04', 'twin-take-max-argument-order', DEC, 'mval = max(bval, lval, rval)', 'mval = max(lval, rval, bval)')
+M('C16', 'decision-line-number-tested-by-truthiness', PP,
+  "                    diff = [op_patch(k, diff)]\n                    break\n",
+  "                    if k:\n                        diff = [op_patch(k, diff)]\n                    break\n", 'R16.5')
+T('C16', 'twin-decision-line-number-tested-is-none', PP,
+  "                    diff = [op_patch(k, diff)]\n                    break\n",
+  "                    if k is not None:\n                        diff = [op_patch(k, diff)]\n                    break\n")
+M('C11', 'entry-key-tested-by-truthiness', DU, '            if op == DiffOp.ADDRANGE:\n                d = op_addrange(line_offset,', '            if op == DiffOp.ADDRANGE and e.key:\n                d = op_addrange(line_offset,', 'R11.7')
+M('C09', 'path-element-tested-by-truthiness', DEC, '    for i in range(len(path)):\n        if isinstance(base, str):\n            return path[:i], path[i:]\n',
+  '    for i in range(len(path)):\n        if isinstance(base, str) and path[i]:\n            return path[:i], path[i:]\n', 'R09.7')
+M('C15', 'ts-cleared-value-typeof-object-first', TSDEC,
+  "  } else if (typeof value === 'string') {\n    // Clearing e.g. a source string means setting it to an empty string\n    return '';\n  } else if (value === null || valueIn(typeof value, ['number', 'boolean'])) {\n    // Clearing anything else (atomic values) means setting it to null\n    return null;\n  } else {\n    // Clearing e.g. a metadata dict means setting it to an empty Object\n    return {};\n  }",
+  "  } else if (typeof value === 'object') {\n    return {};\n  } else if (typeof value === 'string') {\n    return '';\n  } else {\n    return null;\n  }", 'R15.5')
+M('C15', 'py-cleared-value-dict-to-none', DEC, '    elif isinstance(value, dict):\n        # Clearing e.g. a metadata dict means setting it to an empty dict\n        return {}\n', '', 'R15.5')
+T('C15', 'twin-ts-cleared-value-isarray-and-reordered', TSDEC,
+  "  if (value instanceof Array) {", "  if (Array.isArray(value)) {")
+T('C15', 'twin-ts-cleared-value-null-first', TSDEC,
+  "  } else if (value === null || valueIn(typeof value, ['number', 'boolean'])) {", "  } else if (value === null || typeof value === 'number' || typeof value === 'boolean') {")
